@@ -34,10 +34,120 @@ def finish(W, run, trace, nodes, node):
                     pub_detail[g] = pd[g][1]
             trace["tables"][t] = {"claimed": groups, "digest": dt, "pub_detail": pub_detail, "node": nid}
         trace.setdefault("final_abstract", {})[nid] = n.call("abstract")
+    # O9: what a *customised* table serves at the end (the groups that are no longer comparable with
+    # the public table); judged against the history without the other private tables
+    trace["own"] = own_digests(run, claims, nodes)
     # the digests handed to trace_hash
     trace["digest"] = trace["pub"].get(0, {})
     trace["digest_tables"] = {"%s:%s" % (t, g): h for t, info in trace["tables"].items()
                               for g, (h, _) in info["digest"].items()}
+
+
+def expected_readback(run, outcomes, i, nid, ev):
+    """(value, index of the mutation) a readback must return: the value written by the last
+    successful named mutation of that very spot, provided that nothing since then was entitled to
+    change it -- no restart of the interpreter, no re-creation of the table, no init of that group
+    on that table and no other customisation of that group on that table."""
+    tbl, ref, target = ev[1], ev[2], ev[3]
+    g = M.MUTATE_GROUP.get(target)
+    for j in range(i - 1, -1, -1):
+        n2, e = run["events"][j]
+        if n2 != nid:
+            continue
+        if e[0] == "restart" or (e[0] == "newtable" and e[1] == tbl):
+            return None
+        if e[0] == "init" and e[1] == tbl and (e[2] == g or e[2] in M.PREREQ.get(g, ()) or g in M.PREREQ.get(e[2], ())):
+            return None
+        if e[0] == "mutate_walk" and e[1] == tbl:
+            return None
+        if e[0] == "mutate" and e[1] == tbl:
+            if e[2] == ref and e[3] == target and outcomes[j] == "ok":
+                arg = e[4] if len(e) > 4 else None
+                if arg == "<del>":
+                    return None
+                if target in ("magnetic_ff_dict", "magnetic_ff_assign"):
+                    v = "verif"
+                elif target == "activation_assign":
+                    v = 0
+                else:
+                    v = None if arg == "<none>" else (1.2345 if arg is None else arg)
+                return (runner.C.canon(v), j)
+            return None          # another customisation of this table in between: not modelled
+    return None
+
+
+def o9_targets(run):
+    """Private table names that were customised while another private table took part in the run."""
+    edited, names = {}, set()
+    for _, ev in run["events"]:
+        names |= M.private_tables_of(ev)
+        if ev[0] in ("mutate", "mutate_walk") and ev[1] != "public":
+            edited[ev[1]] = edited.get(ev[1], 0) + 1
+    if len(names) < 2:
+        return []
+    return sorted(edited, key=lambda t: (-edited[t], t))[:2]
+
+
+def own_digests(run, claims, nodes, only=None, detail=False):
+    out = {}
+    for name in (o9_targets(run) if only is None else only):
+        for t, nid in sorted(claims.tables.items()):
+            if M.real_name(t) != name or nid not in nodes:
+                continue
+            groups = [g for g in claims.initialised(t) if g not in claims.claimed(t) and g not in runner.UNSTABLE]
+            if groups:
+                d = nodes[nid].call("digest", name, groups, None, detail)
+                out[t] = {g: (h, keys) for g, (h, keys) in d.items()}
+    return out
+
+
+def without_other_tables(W, run, name, detail=False):
+    """The same history without every event that involves a private table other than *name*."""
+    keep = [(i, ne) for i, ne in enumerate(run["events"]) if not (M.private_tables_of(ne[1]) - {name})]
+    cf = {"prop": "C10OWN", "seed": run.get("seed"), "index": run.get("index"), "cfg": run.get("cfg"),
+          "events": [ne for _, ne in keep], "own": name, "own_detail": detail}
+    tr = W.execute(cf, want_abstract=False)
+    tr["outcome_of"] = {i: tr["outcomes"][j] for j, (i, _) in enumerate(keep)}
+    return tr
+
+
+def finish_own(W, run, trace, nodes, node):
+    claims = M.claims_of(run, trace["outcomes"])
+    trace["own"] = own_digests(run, claims, nodes, only=[run["own"]], detail=run.get("own_detail", False))
+    trace["digest"] = {}
+
+
+def judge_own(W, run, trace, viol):
+    """O9 (non-interference between private tables, customised groups included): what a customised
+    table serves at the end of the run is what it serves when the other private tables never existed."""
+    for name in o9_targets(run):
+        mine = {t: d for t, d in trace.get("own", {}).items() if M.real_name(t) == name}
+        if not mine:
+            continue
+        alone_tr = without_other_tables(W, run, name)
+        alone = alone_tr.get("own", {})
+        # what the operations on this table returned (only while the public table is as shipped:
+        # after a public edit what a fasta-based calculator returns legitimately follows the public table)
+        if not any(e[0] in ("mutate", "mutate_walk") and e[1] == "public" for _, e in run["events"]):
+            for i, (nid, ev) in enumerate(run["events"]):
+                if M.private_tables_of(ev) == {name} and ev[0] in ("read", "probe", "init", "calc", "mutate", "mutate_walk",
+                                                                   "formula", "mix", "calc_str") \
+                        and i in alone_tr["outcome_of"] and alone_tr["outcome_of"][i] != trace["outcomes"][i]:
+                    viol.append({"oracle": "O9", "role": "other", "group": event_group(ev),
+                                 "kind": classify(alone_tr["outcome_of"][i], trace["outcomes"][i]), "event": i,
+                                 "expected": alone_tr["outcome_of"][i], "observed": trace["outcomes"][i]})
+        bad = [(t, g) for t, d in sorted(mine.items()) for g, (h, _) in sorted(d.items())
+               if t in alone and g in alone[t] and alone[t][g][0] != h]
+        if not bad:
+            continue
+        # details only now (rare path): re-execute both histories asking for the keys
+        full = dict(run, prop="C10OWN", own=name, own_detail=True)
+        real = W.execute(full, want_abstract=False).get("own", {})
+        alone = without_other_tables(W, run, name, detail=True).get("own", {})
+        for t, g in bad:
+            if t in real and g in real[t] and t in alone and g in alone[t]:
+                viol += W.digest_violations({g: real[t][g]}, "O9", "other", {g: alone[t][g][0]},
+                                            lambda g, t=t: alone[t][g][1])
 
 
 def counterfactual(W, run):
@@ -147,6 +257,13 @@ def judge(W, run, trace):
                 viol.append({"oracle": "O4", "role": "private" if ev[1] != "public" else "public",
                              "group": "formula:reuse:" + ev[3], "kind": "foreign_atoms", "event": i,
                              "expected": out["before"], "observed": out["after"]})
+        elif k == "readback":
+            exp = expected_readback(run, outcomes, i, nid, ev)
+            if exp is not None and out != exp[0]:
+                viol.append({"oracle": "O9", "role": "public" if ev[1] == "public" else "private",
+                             "group": "readback:" + M.MUTATE_GROUP.get(ev[3], "?"),
+                             "kind": "customisation_lost" if not (isinstance(out, list) and out[:1] == ["E"]) else "exception",
+                             "event": i, "expected": exp[0], "observed": out, "since": exp[1]})
         elif k == "change_atom":
             if isinstance(out, dict) and not (out["same_key"] and out["table_ok"] and out["is"]):
                 viol.append({"oracle": "O4", "role": "private", "group": "change_table", "kind": "wrong_atom",
@@ -179,6 +296,7 @@ def judge(W, run, trace):
                         viol.append({"oracle": "O7", "role": "other", "group": "tables",
                                      "kind": "created_by_failed_op", "event": i,
                                      "expected": sorted(before["props"]), "observed": sorted(after["props"])})
+    judge_own(W, run, trace, viol)
     trace["fired"] = fired_c10(run, trace)
     return viol
 
